@@ -89,9 +89,22 @@ def catalogue_spec(env, in_env):
     cells.update(CATALOGUE)
     insheet = {'A1': in_env[0], 'A2': in_env[1], 'A3': in_env[2],
                'B1': in_env[3], 'B2': in_env[4], 'B3': 1}
-    formulas = [f'S!{c}' for c in CATALOGUE] + ['S!A12', 'S!B12', 'T 2!A1']
+    # defined names used from another sheet, next to their definitions
+    t2 = {'A1': '=S!A1*2',
+          'A2': '=SUM(first_row)', 'B2': '=SUM(S!$A$1:$D$1)',
+          'A3': '=one_cell*3', 'B3': '=S!$A$1*3',
+          'A4': '=SUM(two_areas)',
+          'B4': f'=SUM(S!$A$1:$B$1,{QIN}!$A$1:$A$2)',
+          'A5': '=MAX(first_row)&one_cell', 'B5': '=MAX(S!A1:D1)&S!A1'}
+    cells['C13'] = '=SUM(S!$A$1:$D$1)'
+    cells['D13'] = '=S!$A$1*2'
+    formulas = [f'S!{c}' for c in CATALOGUE] + ['S!A12', 'S!B12'] + \
+        ['S!C13', 'S!D13'] + [f'T 2!{c}' for c in t2]
     return dict(
-        sheets={IN: insheet, 'S': cells, 'T 2': {'A1': '=S!A1*2'}},
+        equiv=[('T 2!A2', 'T 2!B2'), ('T 2!A3', 'T 2!B3'),
+               ('T 2!A4', 'T 2!B4'), ('T 2!A5', 'T 2!B5'),
+               ('S!B7', 'S!C13'), ('S!C7', 'S!D13')],
+        sheets={IN: insheet, 'S': cells, 'T 2': t2},
         arrays=[CATALOGUE_ARRAY],
         names={'one_cell': 'S!$A$1', 'first_row': 'S!$A$1:$D$1',
                'two_areas': f'S!$A$1:$B$1,{QIN}!$A$1:$A$2'},
@@ -241,6 +254,18 @@ def check_spec(rec, spec, label):
             for new in ((old + 17.5) if klass(old) == 'number' else 17.5,
                         'zq'):
                 pert = wbspec.fresh_values(wbspec.with_inputs(spec, {z: new}))
+                for x, y in spec.get('equiv', ()):
+                    # a formula written with a defined name and the same
+                    # formula written with the name's definition
+                    if not models.same_value(pert[x], pert[y]):
+                        failure = (
+                            'name-differs-from-its-definition',
+                            f'with {z} = {new!r}: {x} ({formulas_text.get(x)})'
+                            f' = {pert[x]!r} but {y} '
+                            f'({formulas_text.get(y)}) = {pert[y]!r}')
+                        break
+                if failure:
+                    break
                 for x, v in pert.items():
                     if models.same_value(v, base[x]):
                         continue
